@@ -59,7 +59,9 @@ import (
 	"sort"
 	"strconv"
 	"strings"
+	"sync"
 	"testing"
+	"time"
 
 	"github.com/gofrs/uuid"
 	"github.com/ory/x/networkx"
@@ -91,6 +93,10 @@ type c06Case struct {
 	NidB     string         `json:"nid_b"`
 	BData    []*Tup         `json:"b_data"`
 	Ops      []*storeOp     `json:"ops"`
+	// Rewrites: the first relation of every namespace is ALSO defined as the union
+	// of the other relations (computed subject sets): checks then use the
+	// traverser's rewrite lookup as well, not only direct lookups and expansions
+	Rewrites bool `json:"rewrites,omitempty"`
 	nidA     uuid.UUID
 	nidB     uuid.UUID
 }
@@ -106,7 +112,7 @@ func randUUID(r *rand.Rand) uuid.UUID {
 }
 
 func genC06Case(r *rand.Rand, idx int64) *c06Case {
-	c := &c06Case{Universe: genStoreUniverse(r)}
+	c := &c06Case{Universe: genStoreUniverse(r), Rewrites: idx%3 == 1}
 	c.nidA, c.nidB = randUUID(r), randUUID(r)
 	c.NidA, c.NidB = c.nidA.String(), c.nidB.String()
 	// B's data: a sample of the universe with chains (subject sets of the universe
@@ -301,8 +307,45 @@ type c06Side struct {
 	byVia   map[string]storeDriver
 }
 
+// c06Cfg: the namespaces of the universe; with rewrites every relation of the
+// universe is declared in every namespace and the first one is the union of the
+// others (r0 = r1 || r2), in addition to its own relationships.
+func c06Cfg(c *c06Case) *Cfg {
+	cfg := c.Universe.cfg()
+	if !c.Rewrites {
+		return cfg
+	}
+	var names []string
+	for _, rn := range c.Universe.Relations {
+		if rn != "" {
+			names = append(names, rn)
+		}
+	}
+	if len(names) < 2 {
+		return cfg
+	}
+	for _, n := range cfg.NS {
+		for i, rn := range names {
+			rd := &RelDef{Name: rn}
+			if i == 0 {
+				rd.Rewrite = &Expr{Op: "or"}
+				for _, other := range names[1:] {
+					rd.Rewrite.Kids = append(rd.Rewrite.Kids, &Expr{Op: "csr", Rel: other})
+				}
+			}
+			n.Rels = append(n.Rels, rd)
+		}
+	}
+	return cfg
+}
+
 func runC06Case(run *runner, idx int64, wiring string, c *c06Case, seen map[string]int) string {
+	cfg := c06Cfg(c)
 	opts := EnvOpts{Namespaces: c16NSConfig(c.Universe.Namespaces), MaxDepth: 64, MaxWidth: 1000}
+	if c.Rewrites {
+		opts.Namespaces = cfg.toKeto()
+		run.count("cases_with_rewrites", 1)
+	}
 	if strings.HasPrefix(wiring, "ctx") {
 		opts.Contextualizer = c06Contextualizer{}
 	}
@@ -382,7 +425,7 @@ func runC06Case(run *runner, idx int64, wiring string, c *c06Case, seen map[stri
 		B.drivers = wrapFaults(B.drivers, nil)
 	}
 
-	m := &storeMon{run: run, prop: "C06", idx: idx, c: c, seen: seen, env: env, u: c.Universe, cfg: c.Universe.cfg(), model: newRefStore(), net: "A", foreign: c.BData}
+	m := &storeMon{run: run, prop: "C06", idx: idx, c: c, seen: seen, env: env, u: c.Universe, cfg: cfg, model: newRefStore(), net: "A", foreign: c.BData}
 
 	// B's data set, written through B's drivers (round-robin, patches of up to 7)
 	for i, k := 0, 0; i < len(c.BData); k++ {
@@ -516,6 +559,9 @@ func runC06Case(run *runner, idx int64, wiring string, c *c06Case, seen map[stri
 			break
 		}
 	}
+	if wiring == "ctx" && !m.fail {
+		c06ConcurrentBatches(run, m, idx, c, env, caseCtx)
+	}
 	if idx < 2 && wiring == "ctx" {
 		run.sample(map[string]any{"index": idx, "universe": c.Universe, "b_data": tupStrings(c.BData), "first_ops": c.Ops[:minInt(len(c.Ops), 4)], "n_ops": len(c.Ops)})
 	}
@@ -523,6 +569,91 @@ func runC06Case(run *runner, idx int64, wiring string, c *c06Case, seen map[stri
 		return "violation"
 	}
 	return "ok"
+}
+
+// c06ConcurrentBatches: the SAME batch of tuples (same strings, same max-depth) is
+// checked by clients of network A and of network B at the same time, through the
+// REST batch route of the one registry both networks share. Each network's
+// answers must be what that network answers alone (its sequential answers before
+// and after): nothing that is keyed by the strings of a request may be shared
+// between networks.
+func c06ConcurrentBatches(run *runner, m *storeMon, idx int64, c *c06Case, env *Env, caseCtx context.Context) {
+	r := run.p.rng(idx, "concurrent-batches")
+	read := env.Reg.ReadRouter(env.Ctx)
+	var pool []*Tup
+	for _, t := range m.model.rows("A") {
+		pool = append(pool, t)
+	}
+	pool = append(pool, c.BData...)
+	if len(pool) == 0 {
+		return
+	}
+	var ts []*Tup
+	for k := 0; k < 8; k++ {
+		ts = append(ts, pool[r.IntN(len(pool))])
+	}
+	body := jsonStr(map[string]any{"tuples": ts})
+	ask := func(nid uuid.UUID) string {
+		ctxN := context.WithValue(caseCtx, ctxNetworkKey{}, nid)
+		st, resp, pt := httpDoCtx(ctxN, 20*time.Second, read, "POST", "/relation-tuples/batch/check?max-depth=5", body, nil)
+		if pt != "" {
+			return "PANIC " + firstLine(pt)
+		}
+		return fmt.Sprintf("%d %s", st, resp)
+	}
+	soloA, soloB := ask(c.nidA), ask(c.nidB)
+	if soloA == soloB {
+		run.count("concurrent_batches_same_answer_in_both_networks", 1)
+	} else {
+		run.nontrivial(fmt.Sprintf("%d/concurrent-batch", idx))
+	}
+	type res struct {
+		net string
+		ans string
+	}
+	var mu sync.Mutex
+	var got []res
+	for round := 0; round < 6; round++ {
+		var wg sync.WaitGroup
+		start := make(chan struct{})
+		for k := 0; k < 8; k++ {
+			wg.Add(1)
+			go func(k int) {
+				defer wg.Done()
+				<-start
+				nid, name := c.nidA, "A"
+				if k%2 == 1 {
+					nid, name = c.nidB, "B"
+				}
+				a := ask(nid)
+				mu.Lock()
+				got = append(got, res{name, a})
+				mu.Unlock()
+			}(k)
+		}
+		close(start)
+		wg.Wait()
+	}
+	againA, againB := ask(c.nidA), ask(c.nidB)
+	run.count("concurrent_batch_requests", int64(len(got)))
+	for _, g := range got {
+		run.eval(1)
+		want, again, other := soloA, againA, soloB
+		if g.net == "B" {
+			want, again, other = soloB, againB, soloA
+		}
+		if g.ans == want || g.ans == again || strings.Contains(g.ans, "deadline") || strings.Contains(g.ans, "canceled") {
+			continue
+		}
+		cls := "differs"
+		if g.ans == other {
+			cls = "answer-of-the-other-network"
+		}
+		m.violate("ctx/concurrent-batch", "C06:concurrent-batch-check:"+cls,
+			fmt.Sprintf("a batch check of network %s, issued while network %s checked the same tuples, was answered %s; alone the network answers %s (the other network: %s)", g.net, map[string]string{"A": "B", "B": "A"}[g.net], trunc(g.ans, 300), trunc(want, 300), trunc(other, 300)),
+			map[string]any{"tuples": tupStrings(ts)})
+		break
+	}
 }
 
 // observeAllShapesBounded: as observeAllShapes, with the page size chosen so
